@@ -82,6 +82,21 @@ Proof.
   revert l max. induction f as [|f IH]; intros l max H; cbn [strip_prefix_fuel]; [exact H|].
   destruct ((0 <? max) && starts_with l pre); [|exact H]. apply IH. now apply nulfree_dropN.
 Qed.
+Lemma nulfree_strip_suffix_nc f l suf max : nulfree l -> nulfree (strip_suffix_nc_fuel f l suf max).
+Proof.
+  revert l max. induction f as [|f IH]; intros l max H; cbn [strip_suffix_nc_fuel]; [exact H|].
+  destruct ((0 <? max) && ends_with_nocase l suf); [|exact H]. apply IH. now apply nulfree_trunc_chars.
+Qed.
+Lemma nulfree_strip_prefix_nc f l pre max : nulfree l -> nulfree (strip_prefix_nc_fuel f l pre max).
+Proof.
+  revert l max. induction f as [|f IH]; intros l max H; cbn [strip_prefix_nc_fuel]; [exact H|].
+  destruct ((0 <? max) && starts_with_nocase l pre); [|exact H]. apply IH. now apply nulfree_dropN.
+Qed.
+Lemma nulfree_strip_ch_prefix_nc l ch max : nulfree l -> nulfree (strip_ch_prefix_nc l ch max).
+Proof.
+  intros H. revert max. induction H as [|x l Hx Hl IH]; intros max; cbn [strip_ch_prefix_nc]; [constructor|].
+  destruct ((0 <? max) && ((x =? to_upper ch) || (x =? to_lower ch))); [apply IH|now constructor].
+Qed.
 Lemma nulfree_strip_ch_prefix l ch max : nulfree l -> nulfree (strip_ch_prefix l ch max).
 Proof.
   intros H. revert max. induction H as [|x l Hx Hl IH]; intros max; cbn [strip_ch_prefix]; [constructor|].
@@ -125,6 +140,12 @@ Proof.
   - destruct A as [_ Aw]. pose proof (nulfree_replace_sub l (lit_of l rm) (lit_of l wm) max from F (lit_nulfree l wm F Aw)) as X.
     destruct (l0_replace_sub l (lit_of l rm) (lit_of l wm) max from). inversion H; subst. cbn [fst] in X. split; [exact X|exact I].
   - destruct (list_eqb (cstr bytes) bytes); inversion H; subst; (split; [|exact I]); [exact F|apply cstr_is_nulfree].
+  - inversion H; subst; clear H; cbn [out0_nulfree]. split; [|exact I]. destruct (i <? lenN l); [|exact F].
+    unfold upd, blit. apply nulfree_app; split; [now apply nulfree_takeN|]. apply nulfree_app; split; [|now apply nulfree_dropN].
+    constructor; [exact A|constructor].
+  - inversion H; subst; clear H; cbn [out0_nulfree]. split; [|exact I]. apply nulfree_app; split; [exact F|apply nulfree_dec_of_Z].
+  - inversion H; subst; clear H; cbn [out0_nulfree]. split; [|exact I]. apply nulfree_app; split; [exact F|].
+    destruct b; repeat constructor; discriminate.
   - inversion H; subst; clear H; cbn [out0_nulfree]. split; [exact F|exact I].
   - inversion H; subst; clear H; cbn [out0_nulfree]. split; [exact F|exact I].
 Qed.
@@ -156,6 +177,14 @@ Proof.
   - inversion H; subst; clear H; cbn [out0_nulfree]. now apply nulfree_strip_ch_prefix.
   - unfold l0_without_num_suffix in H. inversion H; subst. cbn [out0_nulfree]. now apply nulfree_takeN.
   - inversion H; subst; clear H; cbn [out0_nulfree]. apply nulfree_app; split; [exact F|now apply lit_nulfree].
+  - inversion H; subst; clear H; cbn [out0_nulfree]. destruct ((0 <? lenN l) && (nthN (lenN l - 1) l =? ch)); [exact F|].
+    destruct (ch =? 0) eqn:E; [exact F|]. apply N.eqb_neq in E. apply nulfree_app; split; [exact F|]. constructor; [exact E|constructor].
+  - inversion H; subst; clear H; cbn [out0_nulfree]. destruct (nthN 0 l =? ch); [exact F|].
+    destruct (ch =? 0) eqn:E; [exact F|]. apply N.eqb_neq in E. now constructor.
+  - inversion H; subst; clear H; cbn [out0_nulfree]. unfold l0_without_suffix_nc. destruct (lit_of l a); [exact F|now apply nulfree_strip_suffix_nc].
+  - inversion H; subst; clear H; cbn [out0_nulfree]. unfold l0_without_prefix_nc. destruct (lit_of l a); [exact F|now apply nulfree_strip_prefix_nc].
+  - inversion H; subst; clear H; cbn [out0_nulfree]. exact (nulfree_strip_suffix_nc (S (length l)) l [ch] max F).
+  - inversion H; subst; clear H; cbn [out0_nulfree]. now apply nulfree_strip_ch_prefix_nc.
 Qed.
 
 (* the state after any level-0 step is NUL-free again *)
